@@ -59,21 +59,24 @@ Definition gate_of (c : constraint) : gate :=
          (c_wa c) (c_wb c) (c_wc c) (c_wd c).
 
 (* ---- composer state ---- *)
+(* [rows]: the gates in order, each with its public input if the row has one
+   (Composer.public_inputs is a map keyed by the row index; a zero-valued
+   public input is still recorded).  [wits]: witness values by index. *)
 Record cs : Set := mkCS {
-  gates : list gate;
-  wits : list Fr;
-  pis : list (nat * Fr) }.   (* (row, value) in insertion order *)
+  rows : list (gate * option Fr);
+  wits : list Fr }.
 
-Definition cs_empty : cs := mkCS [] [] [].
+Definition cs_empty : cs := mkCS [] [].
+
+Definition gates (s : cs) : list gate := map fst (rows s).
 
 Definition wval (s : cs) (w : nat) : Fr := nth w (wits s) 0.
 
 Definition append_witness (v : Fr) (s : cs) : nat * cs :=
-  (length (wits s), mkCS (gates s) (wits s ++ [v]) (pis s)).
+  (length (wits s), mkCS (rows s) (wits s ++ [v])).
 
 Definition append_custom_gate (c : constraint) (s : cs) : cs :=
-  mkCS (gates s ++ [gate_of c]) (wits s)
-       (if c_has_pi c then pis s ++ [(length (gates s), c_pi c)] else pis s).
+  mkCS (rows s ++ [(gate_of c, if c_has_pi c then Some (c_pi c) else None)]) (wits s).
 
 Definition append_gate (c : constraint) (s : cs) : cs :=
   append_custom_gate (c_arithmetic c) s.
@@ -139,8 +142,14 @@ Definition initialized : cs :=
   let s := assert_equal_constant one 1 None s in
   append_dummy_gates s.
 
-(* sorted public-input rows (Composer::public_input_indexes / public_inputs).
-   Rows are inserted with strictly increasing row numbers, so insertion order
-   is already sorted; [pis] is kept as inserted. *)
+(* Composer::public_input_indexes / public_inputs: rows carrying a public
+   input, in increasing row order, and their values *)
+Fixpoint pis_from (i : nat) (l : list (gate * option Fr)) : list (nat * Fr) :=
+  match l with
+  | [] => []
+  | (_, Some v) :: tl => (i, v) :: pis_from (S i) tl
+  | (_, None) :: tl => pis_from (S i) tl
+  end.
+Definition pis (s : cs) : list (nat * Fr) := pis_from O (rows s).
 Definition public_input_indexes (s : cs) : list nat := map fst (pis s).
 Definition public_inputs (s : cs) : list Fr := map snd (pis s).
